@@ -123,6 +123,8 @@ def header_to_input(h):
             opts['omega'] = h['omega10']
             if h['batch']:
                 opts['defeat_batch'] = h['batch']
+    elif rule in STATUTORY_CFG and h['p'] != STATUTORY_CFG[rule]['p']:
+        lp = (h['p'], None, None)           # reduced-precision variant of the statutory procedure
     elif rule == 'meek-prf':
         if (h['p'], h['omega10']) != (9, 6):
             lp = (h['p'], None, h['omega10'])
